@@ -26,7 +26,7 @@ KINDS = {"fin": None, "posinf": ["sym", "inf"], "neginf": ["sym", "-inf"]}
 
 def jobs(tier):
     out = []
-    doms = [2, 3] if tier == "quick" else [2, 3, 4]
+    doms = [1, 2, 3] if tier == "quick" else [1, 2, 3, 4]
     for mode in ("min", "max"):
         for dom in doms:
             for kinds in ("fin", "posinf", "neginf"):
